@@ -299,6 +299,8 @@ theorem encodeImmDataTransfer_indep (o1 o2 : Nat) (s : Instr) (h : DtPlain s) :
   dsimp only
   split
   · rfl
+  split
+  · rfl
   · generalize hx : ({ s with rdOffset := s.opd0.reg &&& c_VALUE_MASK } : Instr) = x0
     have hx0' : x0.opd0 = s.opd0 := by rw [← hx]
     have hxm' : x0.memDisp = s.memDisp := by rw [← hx]
@@ -347,6 +349,8 @@ theorem encodeImmDataTransfer_same (o : Nat) (s : Instr) (h : DtPlain s) :
     AddrSame (encodeImmDataTransfer o s) s := by
   unfold encodeImmDataTransfer
   dsimp only
+  split
+  · exact ⟨rfl, rfl, rfl, rfl, rfl, rfl⟩
   split
   · exact ⟨rfl, rfl, rfl, rfl, rfl, rfl⟩
   · generalize hx : ({ s with rdOffset := s.opd0.reg &&& c_VALUE_MASK } : Instr) = x0
